@@ -1,79 +1,108 @@
 (** Proofs about Model/Candle.v, part 1: window arithmetic, the candle map, the per-Accum cache, the
     partition of the input rows into windows, and the sorted output. *)
-From Coq Require Import ZArith Bool Lia List Permutation.
+From Coq Require Import ZArith Bool Lia String List Permutation.
 Import ListNotations.
 Require Import MS.Base.GoInt MS.Base.Res MS.Base.F32 MS.Base.F64 MS.Model.Uda MS.Model.Candle MS.Generated.Src_agg.
 Local Open Scope Z_scope.
 
 (** ------------------------------------------------------------------ window arithmetic *)
+(** truncation to a grid of step d whose origin is shifted by o:  Time.Truncate is [trunc_o abs_epoch_ns],
+    local midnight at UTC offset off is [trunc_o off agg_Day] *)
+Definition trunc_o (o d t : Z) : Z := t - (t + o) mod d.
+
+Lemma trunc_o_eq o d t : d <> 0 -> trunc_o o d t = d * ((t + o) / d) - o.
+Proof. intros H. unfold trunc_o. pose proof (Z_div_mod_eq_full (t + o) d). lia. Qed.
+
+Lemma trunc_o_idem o d t : 0 < d -> trunc_o o d (trunc_o o d t) = trunc_o o d t.
+Proof.
+  intros H. rewrite (trunc_o_eq o d t) by lia. unfold trunc_o at 1.
+  replace (d * ((t + o) / d) - o + o) with ((t + o) / d * d) by lia. rewrite Z_mod_mult. lia.
+Qed.
+
+Lemma trunc_o_le o d t : 0 < d -> trunc_o o d t <= t.
+Proof. intros H. unfold trunc_o. pose proof (Z.mod_pos_bound (t + o) d H). lia. Qed.
+
+Lemma trunc_o_mono o d t t' : 0 < d -> t <= t' -> trunc_o o d t <= trunc_o o d t'.
+Proof.
+  intros H L. rewrite !trunc_o_eq by lia. assert ((t + o) / d <= (t' + o) / d) by (apply Z.div_le_mono; lia). nia.
+Qed.
+
+(** nesting: a grid of step k*d contains... every point of it lies on the finer grid of step d when the two
+    origins differ by a multiple of d *)
+Lemma trunc_o_nest o1 o2 d k c t : 0 < d -> 0 < k -> o2 - o1 = c * d ->
+  trunc_o o2 (k * d) (trunc_o o1 d t) = trunc_o o2 (k * d) t.
+Proof.
+  intros H K E. assert (0 < k * d) by nia.
+  rewrite (trunc_o_eq o1 d t) by lia. rewrite !(trunc_o_eq o2 (k * d)) by lia. f_equal. f_equal.
+  replace (d * ((t + o1) / d) - o1 + o2) with (d * ((t + o1) / d + c)) by lia.
+  replace (t + o2) with (t + o1 + c * d) by lia.
+  rewrite (Z.mul_comm k d), Z.div_mul_cancel_l by lia.
+  rewrite <- Z.div_div by lia. rewrite Z.div_add by lia. reflexivity.
+Qed.
+
+Lemma trunc_o_whole o d q r t : 0 < d -> d = q * NS -> o = r * NS -> (trunc_o o d t / NS) * NS = trunc_o o d t.
+Proof.
+  intros H E1 E2. rewrite (trunc_o_eq o d t) by lia.
+  replace (d * ((t + o) / d) - o) with ((q * ((t + o) / d) - r) * NS) by (rewrite E1, E2; ring).
+  rewrite Z_div_mult by reflexivity. reflexivity.
+Qed.
+
+Lemma time_truncate_o t d : 0 < d -> time_truncate t d = trunc_o abs_epoch_ns d t.
+Proof. intros H. unfold time_truncate, trunc_o. destruct (Z.leb_spec d 0); [lia | reflexivity]. Qed.
+
 Lemma time_truncate_idem t d : time_truncate (time_truncate t d) d = time_truncate t d.
 Proof.
-  unfold time_truncate. destruct (Z.leb_spec d 0) as [H|H]; [reflexivity|].
-  replace (t - (t + abs_epoch_ns) mod d + abs_epoch_ns) with (d * ((t + abs_epoch_ns) / d)).
-  - rewrite Z.mul_comm, Z_mod_mult. lia.
-  - pose proof (Z_div_mod_eq_full (t + abs_epoch_ns) d). lia.
+  destruct (Z_lt_le_dec 0 d) as [H|H]; [rewrite !time_truncate_o by exact H; apply trunc_o_idem, H|].
+  unfold time_truncate. destruct (Z.leb_spec d 0); [reflexivity | lia].
 Qed.
 
 Lemma day_pos : 0 < agg_Day.
 Proof. reflexivity. Qed.
 
-Lemma day_floor_idem t : (t - t mod agg_Day) - (t - t mod agg_Day) mod agg_Day = t - t mod agg_Day.
+Lemma day_start_o off t : day_start off t = trunc_o off agg_Day t.
+Proof. reflexivity. Qed.
+
+(** what the theorems need of a candle duration: window starts are fixed points of Truncate *)
+Definition idem (cd : cdur) : Prop := forall t, truncate cd (truncate cd t) = truncate cd t.
+
+Lemma idem_zone off mult suffix : idem (cd_of_zone off mult suffix).
 Proof.
-  replace (t - t mod agg_Day) with (agg_Day * (t / agg_Day)) at 2 by (pose proof (Z_div_mod_eq_full t agg_Day); lia).
-  rewrite Z.mul_comm, Z_mod_mult. lia.
+  intros t. unfold truncate, cd_of_zone. cbn [cd_day cd_ds cd_dur]. destruct (String.eqb suffix "D").
+  - rewrite !day_start_o. apply trunc_o_idem, day_pos.
+  - apply time_truncate_idem.
 Qed.
 
-Lemma truncate_idem cd t : truncate cd (truncate cd t) = truncate cd t.
-Proof. unfold truncate. destruct (cd_day cd); [apply day_floor_idem | apply time_truncate_idem]. Qed.
-
-Lemma day_floor_div t : (t - t mod agg_Day) / agg_Day = t / agg_Day.
-Proof.
-  replace (t - t mod agg_Day) with (t / agg_Day * agg_Day) by (pose proof (Z_div_mod_eq_full t agg_Day); lia).
-  apply Z_div_mult. reflexivity.
-Qed.
+Lemma truncate_idem cd t : idem cd -> truncate cd (truncate cd t) = truncate cd t.
+Proof. intros H. apply H. Qed.
 
 (** C31's [IsWithin t (Truncate t)] for the suffixes in scope *)
-Lemma is_within_truncate cd t : is_within cd t (truncate cd t) = true.
+Lemma is_within_truncate cd t : idem cd -> is_within cd t (truncate cd t) = true.
 Proof.
-  unfold is_within, truncate. destruct (cd_day cd).
-  - rewrite day_floor_div. apply Z.eqb_refl.
+  intros H. specialize (H t). unfold is_within, truncate in *. destruct (cd_day cd).
+  - rewrite H. apply Z.eqb_refl.
   - apply Z.eqb_refl.
 Qed.
 
-Lemma time_truncate_le t d : time_truncate t d <= t.
+(** a window is as long as the timeframe's duration: every instant of [start, start + d) truncates to start *)
+Lemma trunc_o_same o d t u : 0 < d -> trunc_o o d t <= u < trunc_o o d t + d -> trunc_o o d u = trunc_o o d t.
 Proof.
-  unfold time_truncate. destruct (Z.leb_spec d 0); [lia|]. pose proof (Z.mod_pos_bound (t + abs_epoch_ns) d). lia.
+  intros H [L U]. rewrite (trunc_o_eq o d t) in * by lia. rewrite (trunc_o_eq o d u) by lia.
+  f_equal. f_equal. symmetry. apply (Zdiv_unique (u + o) d ((t + o) / d) (u + o - d * ((t + o) / d))); lia.
 Qed.
 
-Lemma time_truncate_mono d t t' : t <= t' -> time_truncate t d <= time_truncate t' d.
+Definition window_len_ok (cd : cdur) : Prop :=
+  forall t u, truncate cd t <= u < truncate cd t + cd_dur cd -> truncate cd u = truncate cd t.
+
+(** holds for Sec/Min/H with a positive duration and for "1D" (in any fixed-offset zone) *)
+Lemma window_len_zone off mult suffix :
+  0 < cd_dur (cd_of_zone off mult suffix) ->
+  (String.eqb suffix "D" = true -> cd_dur (cd_of_zone off mult suffix) = agg_Day) ->
+  window_len_ok (cd_of_zone off mult suffix).
 Proof.
-  intros H. unfold time_truncate. destruct (Z.leb_spec d 0) as [Hd|Hd]; [exact H|].
-  replace (t - (t + abs_epoch_ns) mod d) with (d * ((t + abs_epoch_ns) / d) - abs_epoch_ns)
-    by (pose proof (Z_div_mod_eq_full (t + abs_epoch_ns) d); lia).
-  replace (t' - (t' + abs_epoch_ns) mod d) with (d * ((t' + abs_epoch_ns) / d) - abs_epoch_ns)
-    by (pose proof (Z_div_mod_eq_full (t' + abs_epoch_ns) d); lia).
-  assert ((t + abs_epoch_ns) / d <= (t' + abs_epoch_ns) / d) by (apply Z.div_le_mono; lia). nia.
+  intros P HD t u. unfold truncate. cbn [cd_of_zone cd_day cd_ds]. destruct (String.eqb suffix "D") eqn:E.
+  - rewrite (HD eq_refl). rewrite !day_start_o. apply trunc_o_same, day_pos.
+  - rewrite !time_truncate_o by exact P. apply trunc_o_same, P.
 Qed.
-
-Lemma day_floor_is_truncate t : t - t mod agg_Day = time_truncate t agg_Day.
-Proof.
-  unfold time_truncate. change (agg_Day <=? 0) with false. cbv iota.
-  assert (E : (t + abs_epoch_ns) mod agg_Day = t mod agg_Day).
-  { change abs_epoch_ns with (719162 * agg_Day). apply Z_mod_plus_full. }
-  rewrite E. reflexivity.
-Qed.
-
-(** the effective window length of a candle duration: 24 h for "D", else the duration *)
-Definition eff_dur (cd : cdur) : Z := if cd_day cd then agg_Day else cd_dur cd.
-
-Lemma truncate_eff cd t : truncate cd t = time_truncate t (eff_dur cd).
-Proof. unfold truncate, eff_dur. destruct (cd_day cd); [apply day_floor_is_truncate | reflexivity]. Qed.
-
-Lemma truncate_le cd t : truncate cd t <= t.
-Proof. rewrite truncate_eff. apply time_truncate_le. Qed.
-
-Lemma truncate_mono cd t t' : t <= t' -> truncate cd t <= truncate cd t'.
-Proof. intros H. rewrite !truncate_eff. apply time_truncate_mono. exact H. Qed.
 
 (** ------------------------------------------------------------------ the candle map *)
 Lemma lookup_upd_same k f d m :
@@ -174,39 +203,39 @@ Proof.
   destruct (W kc c L) as [S _]. rewrite S. destruct (Z.eqb_spec kc (truncate cd t)); [assumption | reflexivity].
 Qed.
 
-Lemma wf_row_step' cd nacc m r : wf_map cd m -> wf_map cd (row_step' cd nacc m r).
+Lemma wf_row_step' cd nacc m r : idem cd -> wf_map cd m -> wf_map cd (row_step' cd nacc m r).
 Proof.
-  intros W k c. unfold row_step'. set (k0 := truncate cd (b_t r)).
+  intros Hid W k c. unfold row_step'. set (k0 := truncate cd (b_t r)).
   destruct (Z.eq_dec k k0) as [E|E].
   - subst k. rewrite lookup_upd_same. intros H. inversion H; subst c. rewrite add_bar_start. split.
     + destruct (lookup k0 m) as [c0|] eqn:L; [apply (W k0 c0 L)|].
-      cbn [new_candle c_start]. unfold k0. apply truncate_idem.
-    + unfold k0. apply truncate_idem.
+      cbn [new_candle c_start]. unfold k0. apply truncate_idem, Hid.
+    + unfold k0. apply truncate_idem, Hid.
   - rewrite lookup_upd_other by exact E. apply W.
 Qed.
 
-Lemma accum_rows_nocache cd nacc rows : forall m cache, wf_map cd m ->
+Lemma accum_rows_nocache cd nacc rows : idem cd -> forall m cache, wf_map cd m ->
   fst (fold_left (row_step cd nacc) rows (m, cache)) = fold_left (row_step' cd nacc) rows m.
 Proof.
-  induction rows as [|r rows IH]; intros m cache W; cbn [fold_left]; [reflexivity|].
+  intros Hid. induction rows as [|r rows IH]; intros m cache W; cbn [fold_left]; [reflexivity|].
   unfold row_step at 2. rewrite (get_key_truncate cd m cache (b_t r) W).
-  rewrite IH by (apply (wf_row_step' cd nacc m r W)). reflexivity.
+  rewrite IH by (apply (wf_row_step' cd nacc m r Hid W)). reflexivity.
 Qed.
 
-Lemma wf_fold cd nacc rows : forall m, wf_map cd m -> wf_map cd (fold_left (row_step' cd nacc) rows m).
-Proof. induction rows as [|r rows IH]; intros m W; cbn [fold_left]; [exact W | apply IH, wf_row_step', W]. Qed.
+Lemma wf_fold cd nacc rows : idem cd -> forall m, wf_map cd m -> wf_map cd (fold_left (row_step' cd nacc) rows m).
+Proof. intros Hid. induction rows as [|r rows IH]; intros m W; cbn [fold_left]; [exact W | apply IH, wf_row_step'; assumption]. Qed.
 
 Lemma wf_nil cd : wf_map cd [].
 Proof. intros k c H. discriminate H. Qed.
 
 (** several Accum calls on one candler = one call on the concatenated rows *)
-Lemma accum_rows_concat cd nacc rowss : forall m, wf_map cd m ->
+Lemma accum_rows_concat cd nacc rowss : idem cd -> forall m, wf_map cd m ->
   fold_left (accum_rows cd nacc) rowss m = fold_left (row_step' cd nacc) (concat rowss) m
   /\ wf_map cd (fold_left (accum_rows cd nacc) rowss m).
 Proof.
-  induction rowss as [|rows rest IH]; intros m W; cbn [fold_left concat]; [split; [reflexivity | exact W]|].
-  unfold accum_rows at 2 4. rewrite (accum_rows_nocache cd nacc rows m None W).
-  rewrite fold_left_app. apply IH. apply wf_fold. exact W.
+  intros Hid. induction rowss as [|rows rest IH]; intros m W; cbn [fold_left concat]; [split; [reflexivity | exact W]|].
+  unfold accum_rows at 2 4. rewrite (accum_rows_nocache cd nacc rows Hid m None W).
+  rewrite fold_left_app. apply IH. apply wf_fold; assumption.
 Qed.
 
 (** ------------------------------------------------------------------ partition into windows *)
@@ -311,15 +340,15 @@ Definition accum_all (cd : cdur) (nacc : nat) (rowss : list (list bar)) : cmap :
 Definition window_candle (cd : cdur) (nacc : nat) (w : Z) (rows : list bar) : candle :=
   fold_left (add_bar cd) (window_rows cd w rows) (new_candle cd nacc w).
 
-Theorem accum_partition cd nacc rowss :
+Theorem accum_partition cd nacc rowss : idem cd ->
   let rows := concat rowss in
   let out := sort_by_key (accum_all cd nacc rowss) in
   incr (map fst out)
   /\ (forall w, In w (map fst out) <-> exists r, In r rows /\ truncate cd (b_t r) = w)
   /\ (forall w c, In (w, c) out -> c = window_candle cd nacc w rows).
 Proof.
-  cbv zeta. unfold accum_all.
-  destruct (accum_rows_concat cd nacc rowss [] (wf_nil cd)) as [E _]. rewrite E.
+  intros Hid. cbv zeta. unfold accum_all.
+  destruct (accum_rows_concat cd nacc rowss Hid [] (wf_nil cd)) as [E _]. rewrite E.
   set (m := fold_left (row_step' cd nacc) (concat rowss) []).
   assert (N : NoDup (map fst m)) by (apply fold_nodup; constructor).
   assert (L : forall w, lookup w m = match window_rows cd w (concat rowss) with
